@@ -265,6 +265,22 @@ def constraint_components(ctx):
         comps.append(Comp(nm, "constraints:" + nm, C, members, float_out=True, grouping=False, cfg={"dtype": "real"}))
         if nm != "PeakAmplitudeConstraint":
             comps.append(Comp(nm, "constraints:" + nm, C, cm, float_out=True, grouping=False, cfg={"dtype": "complex"}))
+    # PAPR: members that need many clipping rounds (one dominant sample, tight limits on short items) next to members that
+    # already satisfy the limit at 75-99 % of it or converge at once: a finished member must not be touched again
+    for lim in (1.5, 2.0, 3.0):
+        m = 12
+
+        def two_level(frac):
+            # one sample of amplitude a among m-1 ones: PAPR = a^2 m / (a^2 + m - 1) = frac * lim
+            t = frac * lim
+            a2 = t * (m - 1) / (m - t)
+            return torch.tensor([math.sqrt(a2)] + [1.0] * (m - 1), dtype=torch.float32) * (1.0 if rng.random() < 0.5 else -1.0)
+        gs = lambda sc: torch.tensor([rng.gauss(0, sc) for _ in range(m)], dtype=torch.float32)
+        pm = [two_level(0.75), torch.tensor([40.0] + [rng.uniform(0.5, 1.5) * rng.choice([-1, 1]) for _ in range(m - 1)]), two_level(0.9), gs(1), two_level(0.99),
+              torch.tensor([(-1.0) ** i for i in range(m)]), torch.tensor([0.0] * (m - 2) + [25.0, -1.0]), gs(5)]
+        comps.append(Comp("PAPRConstraint", "constraints:PAPRConstraint", PAPRConstraint(max_papr=lim), pm, float_out=True, grouping=False, cfg={"dtype": "real", "max_papr": lim, "members": "peaky+converged"}))
+        pc = [torch.complex(a, b) for a, b in zip(pm, pm[3:] + pm[:3])]
+        comps.append(Comp("PAPRConstraint", "constraints:PAPRConstraint", PAPRConstraint(max_papr=lim), pc, float_out=True, grouping=False, cfg={"dtype": "complex", "max_papr": lim, "members": "peaky+converged"}))
     am = [m.reshape(3, 8) for m in members]
     comps.append(Comp("PerAntennaPowerConstraint", "constraints:PerAntennaPowerConstraint", PerAntennaPowerConstraint(uniform_power=0.7), am, item_dims=2, float_out=True, cfg={"item_shape": [3, 8]}))
     for nm, C in (("TotalPowerConstraint", TotalPowerConstraint(2.0)), ("AveragePowerConstraint", AveragePowerConstraint(0.5)), ("PAPRConstraint", PAPRConstraint(max_papr=3.0))):
